@@ -1,7 +1,52 @@
 """C08 — only vars and explicitly passed pointers can be mutated."""
 import random, collections
 from .. import common as C
-from .. import gen_prog as GP, execstream
+from .. import gen_prog as GP, execstream, c08tie, gen_c08, gen_mut as GM
+import re
+
+
+def tie(ck, cases, label):
+    """real mutability.rs / function_calls.rs vs Model/Mutability.v on the typed tree of each program"""
+    impl = C.run_harness("typed", cases, ck.work + "/" + label, timeout=3000)
+    real = {}
+    for cid, src in cases:
+        parts = impl.get(cid, ["missing"])
+        r = dict(verdict=parts[0], codes=c08tie.parse_codes(parts[0]) if parts[0].startswith("err") else [],
+                 sexp=parts[1] if len(parts) > 1 else "-", pre=None, nonfn=[], drive="?")
+        if len(parts) > 2:
+            m = re.match(r"pre=(\S+) nonfn=(\S+) drive=(.*)", parts[2])
+            if m:
+                r["pre"] = "panic" if m.group(1) == "panic" else c08tie.parse_codes(m.group(1))
+                r["nonfn"] = c08tie.parse_codes(m.group(2)); r["drive"] = m.group(3)
+        real[cid] = r
+    model = C.run_model([("mut", cid, real[cid]["sexp"]) for cid, _ in cases if real[cid]["sexp"].startswith("(")], ck.work + "/" + label, timeout=3000)
+    stats = collections.Counter(); bad = 0
+    for cid, src in cases:
+        r = real[cid]; v = r["verdict"]
+        if not (v == "ok" or v.startswith("ok ") or v.startswith("err codes=")):
+            stats["skip:compiler-failure"] += 1; continue      # panics of the typer are C02's business
+        if not r["sexp"].startswith("("):
+            stats["skip:no-typed-tree"] += 1; continue
+        if r["drive"] != "same":
+            bad += 1; stats["DRIVE-DIFF"] += 1
+            ck.violation("tie-broken:replica", "the harness replica of analyze_and_resolve differs from Compiler::analyze_and_resolve: %s vs %s" % (v, r["drive"]), src); continue
+        m = re.match(r"codes (\[[0-9,]*\]) raw (\[[0-9,]*\])", model.get(cid, "MODEL-MISSING"))
+        if not m:
+            bad += 1; stats["MODEL-ERROR"] += 1
+            ck.violation("tie-broken:model-error", "driver: %s" % model.get(cid, "")[:200], src + "\nterm: " + r["sexp"]); continue
+        mc = c08tie.parse_codes(m.group(1))
+        res = c08tie.compare(r["codes"], mc, r["nonfn"], r["pre"], v.startswith("err"))
+        if res == "":
+            stats["agree"] += 1
+            if any(c in c08tie.PASS_CODES for c in r["codes"]) or mc: stats["agree-with-codes"] += 1
+        elif res.startswith("skip:"):
+            stats["skip"] += 1
+        else:
+            bad += 1; stats["DISAGREE"] += 1
+            ck.violation("mutability-analysis-differs", "mutability / function-call analysis differs from Model/Mutability.v: " + res,
+                         "%s\nreal : %s pre=%s nonfn=%s\nmodel: %s\nterm : %s" % (src, v, r["pre"], r["nonfn"], model.get(cid), r["sexp"]))
+    ck.log("%s: %d programs %s" % (label, len(cases), dict(stats)))
+    return stats, bad
 
 T = ["i32", "u8", "i64", "u16"]
 
@@ -60,6 +105,12 @@ def run(tier):
                 if out != exp:
                     bad += 1; ck.violation("wrong-effect:" + cid.split(":")[1], "%s prints %r, expected %r" % (cid, out, exp), src)
     ck.log("rule programs: %d %s, %d problems" % (len(cases), dict(stats), bad))
+    # the analyzers against the model, on the typed tree of every program
+    tcases = [(cid, src) for cid, src in gen_c08.generate()]
+    tcases += gen_c08.random_programs(600 if tier == "quick" else 40000, ck.seed)
+    tcases += [("corpus:" + name, src) for name, src in GM.corpus() if name.startswith("tests/samples") or name.startswith("examples")]
+    tstats, tbad = tie(ck, tcases, "tie")
+    bad += tbad
     # generated programs: every call of a view/value/slice-pointer/pointer callee, caller state printed, vs the interpreter
     n = 150 if tier == "quick" else 20000
     ne, estats, dout, srcs = execstream.run(ck, n, ck.seed + 8, level=3, label="exec")
@@ -69,6 +120,7 @@ def run(tier):
     ck.coverage.update(
         evaluations=len(cases) + ne, distinct_nontrivial=len(cases) + dout,
         rule="rule programs: for 4 element types, single-fault programs that try to mutate through a by-value parameter, an array view, a struct view, a constant, copy an array / struct, pass a pointer argument without `&`, or take the address of something immutable (must be rejected, with E530 / E531 / E533 / E513 where the property names the code), and their valid counterparts (effect on the caller's variables printed); generated programs (level 3) in which callees read views of arrays and structures, write through slice pointers, pointers and pointers to structures, pointer variables are retargeted, and the caller prints its variables after every call, compared with the interpreter; distinct = rule programs + distinct outputs",
-        stats=dict(stats), problems=bad, exec_stats=dict(estats),
+        stats=dict(stats), problems=bad, exec_stats=dict(estats), tie_programs=len(tcases), tie_stats=dict(tstats),
+        tie_rule="typed-tree correspondence: for every program the declarations are serialised just before Analyzer::analyze (types, references with the typer's auto-inserted steps, address depths, call argument types) and the extracted passes of Model/Mutability.v (function_calls then mutability, with the model's own decision functions) must predict exactly the multiset of E352/E510-E513/E530-E533 the real compiler reports; programs rejected by an earlier stage are skipped and counted; systematic programs (7 binding kinds x every operation), 104 interaction cases, random multi-statement programs, the repository's samples",
         samples=[dict(case=cases[0][0], source=cases[0][1], result=impl.get(cases[0][0], ["?"])[0])])
     return ck.finish()
